@@ -164,11 +164,10 @@ fn tag_optional_children(
     if let Some(current_tag) = root.get_child(&to_str(e.name())?) {
         let parent = current_tag.inner_t();
 
-        for (child_name, child_count) in children_count.iter() {
-            if let Some(c) = parent.get_child(child_name) {
-                if child_count == &c.inner_t().count() {
-                    to_optional.push(child_name.clone());
-                }
+        for child in parent.children().iter() {
+            let c = child.inner_t();
+            if children_count.get(&c.name) == Some(&c.count()) {
+                to_optional.push(c.name.clone());
             }
         }
 
